@@ -108,12 +108,11 @@ ASMJIT_FAVOR_SIZE Error FuncFrame::init(const FuncDetail& func) noexcept {
   _sp_reg_id = uint8_t(arch_traits.sp_reg_id());
   _sa_reg_id = uint8_t(Reg::kIdBad);
 
+  // Any alignment greater than the alignment guaranteed upon entry has to be established dynamically. This includes
+  // 8-byte alignment of 32-bit targets that only guarantee 4 bytes - `finalize()` cannot provide it by padding alone.
   uint32_t natural_stack_alignment = func.call_conv().natural_stack_alignment();
-  uint32_t min_dynamic_alignment = Support::max<uint32_t>(natural_stack_alignment, 16);
-
-  if (min_dynamic_alignment == natural_stack_alignment) {
-    min_dynamic_alignment <<= 1;
-  }
+  uint32_t register_size = func.call_conv().save_restore_reg_size(RegGroup::kGp);
+  uint32_t min_dynamic_alignment = Support::max<uint32_t>(natural_stack_alignment, register_size) << 1;
 
   _natural_stack_alignment = uint8_t(natural_stack_alignment);
   _min_dynamic_alignment = uint8_t(min_dynamic_alignment);
